@@ -39,7 +39,11 @@ def family(rs, kind, n):
         A = rs.normal(size=(3, 40))
         return (np.tanh(t @ A) + 0.01 * rs.normal(size=(n, 40))).astype(np.float32)
     if kind == "sparse":
-        X = np.where(rs.uniform(size=(n, 40)) < 0.25, rs.uniform(0.2, 2.0, size=(n, 40)), 0).astype(np.float32)
+        # sparse rows of LOW intrinsic dimension (the property's domain): rectified sparse loadings of 3 latent factors
+        t = rs.uniform(size=(n, 3))
+        A = np.where(rs.uniform(size=(3, 60)) < 0.5, rs.normal(size=(3, 60)), 0)
+        b = rs.uniform(0.0, 0.6, size=60)
+        X = np.maximum(t @ A - b, 0).astype(np.float32)
         X[:, 0] = 1.0
         return sps.csr_matrix(X)
     if kind == "binary":
